@@ -37,6 +37,8 @@ def dataset_cfg(rng, tier, prop):
            "reject_rate": rng.choice([0.1, 0.25]) if prop == "C13" else 0.0,
            # the Dataset constructor joins outer whatever the global default of align() is
            "align_join": rng.choice(["outer", "outer", "outer", "inner"])}
+    if rng.random() < 0.06:
+        cfg["max_len"], cfg["max_rank"], cfg["big"] = rng.randint(6, 24), min(cfg["max_rank"], 2), True
     cfg["min_len"] = min(cfg["min_len"], cfg["max_len"])
     if mode == "enum":
         cfg["n_base"] = rng.randint(2, 8)
